@@ -493,18 +493,23 @@ func DecodePacket(b []byte, version byte) (fields []Field, used int, verdict int
 			d.plain = false // filters have their own syntax (checked against MQTT 4.7 elsewhere)
 			d.bytes(KFilter, f)
 			d.num(KSubQoS, uint64(o&3))
+			// MQTT-3.8.3-4 (3.1.1) / 3.8.3.1 (5.0): reserved bits set or QoS 3 make the
+			// SUBSCRIBE a Malformed Packet, not merely a protocol error
 			if o&3 == 3 {
-				d.inv = true
+				d.bad = true
 			}
 			if v5 {
-				if o&0xc0 != 0 || o>>4&3 == 3 {
-					d.inv = true
+				if o&0xc0 != 0 {
+					d.bad = true
+				}
+				if o>>4&3 == 3 {
+					d.inv = true // Retain Handling 3 is a Protocol Error
 				}
 				d.num(KSubNL, uint64(o>>2&1))
 				d.num(KSubRAP, uint64(o>>3&1))
 				d.num(KSubRH, uint64(o>>4&3))
 			} else if o&0xfc != 0 {
-				d.inv = true
+				d.bad = true
 			}
 			n++
 		}
